@@ -4,7 +4,7 @@ from __future__ import annotations
 import ast
 import time
 
-from .smt import (T, INT, BOOL, REAL, SEQI, STR, TRUE, FALSE, I, And, Or, Not, Eq, Ne, Lt, Le, Add, Implies,
+from .smt import (T, INT, BOOL, REAL, SEQI, STR, TRUE, FALSE, I, And, Or, Not, Eq, Ne, Lt, Le, Add, Implies, Ite,
                   Decls, select, arr, R)
 from .state import State, Out, Obligation, Unsupported, Frame
 from .values import *
@@ -34,6 +34,7 @@ class FunctionResult:
         self.input_terms = []            # names of input constants, for model extraction
         self.param_terms = {}
         self.observe = []
+        self.regions_used = set()
         self.refine_facts = []
 
 
@@ -64,6 +65,11 @@ class Exec(HeapMixin, SpecEvalMixin, ExprMixin, StmtMixin, CallMixin):
         self._class_ids = {}
         self.refine_facts = []
         self.refine_seen = set()
+        self.global_vals = {}
+        self.region_index = {}
+        self.regions_used = set()
+        self.global_facts = []
+        self._boot_state = None
 
     # ---- obligations -----------------------------------------------------------------------------
     def oblige(self, st: State, goal: T, kind: str, clause: str, meta=None) -> State:
@@ -86,11 +92,18 @@ class Exec(HeapMixin, SpecEvalMixin, ExprMixin, StmtMixin, CallMixin):
             return VOpt(n, self.fresh_value(st, kind.inner, name))
         if isinstance(kind, KTuple):
             return VTuple([self.fresh_value(st, k, f"{name}_{i}") for i, k in enumerate(kind.items)])
+        exact = isinstance(kind, KRef) and kind.cls.endswith("!")
+        if exact:
+            kind = KRef(kind.cls[:-1])
         comps = [self.decls.fresh(name + suf, so) for suf, so in layout(kind)]
         v = from_comps(kind, comps)
         self.add_ref_facts(st, v)
         if isinstance(v, VRef):
-            st.pc.append(self.is_instance_term(st, v.t, v.cls))
+            if exact:
+                v.exact = True
+                st.pc.append(Eq(self.type_of(st, v.t), self.class_id(v.cls)))
+            else:
+                st.pc.append(self.is_instance_term(st, v.t, v.cls))
         return v
 
     def intro_ghost(self, st: State, ghost: dict) -> State:
@@ -106,7 +119,12 @@ class Exec(HeapMixin, SpecEvalMixin, ExprMixin, StmtMixin, CallMixin):
         """Hints instantiate lemmas / axioms explicitly: each hint is a spec expression whose value
         (a Bool) is a *proved lemma instance* (lemma functions return facts) and is added to the path."""
         for h in hints:
-            v = self.spec_eval(env, h)
+            try:
+                v = self.spec_eval(env, h)
+            except RuntimeError as e:
+                if "is unbound" in str(e):
+                    continue          # hint mentions a ghost that does not exist at this point
+                raise
             if isinstance(v, VBool):
                 st.pc.append(v.t)
 
@@ -131,6 +149,7 @@ class Exec(HeapMixin, SpecEvalMixin, ExprMixin, StmtMixin, CallMixin):
         res.inlined = set(self.inlined)
         res.used_contracts = set(self.used_contracts)
         res.dispatch_sites = dict(self.dispatch_sites)
+        res.regions_used = set(self.regions_used)
         res.refine_facts = list(self.refine_facts)
         res.decls = self.decls
         res.gen_seconds = time.time() - t0
@@ -227,6 +246,9 @@ class Exec(HeapMixin, SpecEvalMixin, ExprMixin, StmtMixin, CallMixin):
         self.cur_module = fi.module
         self.cur_func_name = self.short_name(fi)
         st = self.initial_state(fi)
+        self._boot_state = st
+        for gname, gkind in self.reg.globals.items():
+            self.global_vals[gname] = self.fresh_value(st, gkind, "glob_" + gname)
         params = {}
         for n, kind in c.params.items():
             params[n] = self.fresh_value(st, kind, "p_" + n)
@@ -325,6 +347,8 @@ class Exec(HeapMixin, SpecEvalMixin, ExprMixin, StmtMixin, CallMixin):
                     d = self.field_decl(item[1].cls, item[2])
                     if d is None:
                         raise Unsupported(f"modifies: no model for {item[1].cls}.{item[2]}")
+                    if item[3] is not None:
+                        item = (item[0], VRef(Ite(item[3], item[1].t, I(0)), item[1].cls), item[2], None)
                     for suf, so in layout(d[1]) + ([("$has", BOOL)] if d[2] else []):
                         key = f"{d[0]}.{item[2]}{suf}"
                         if permitted.get(key, []) is not None:
@@ -332,7 +356,8 @@ class Exec(HeapMixin, SpecEvalMixin, ExprMixin, StmtMixin, CallMixin):
                 elif kind in ("list", "deque"):
                     key, _ = self._seq_key(item[1].elem)
                     if permitted.get(key, []) is not None:
-                        permitted.setdefault(key, []).append(item[1].t)
+                        permitted.setdefault(key, []).append(
+                            item[1].t if item[3] is None else Ite(item[3], item[1].t, I(0)))
                 elif kind == "dict":
                     ks, dom, vals = self._dict_keys(item[1])
                     for key in [dom] + [v[0] for v in vals]:
